@@ -5,9 +5,9 @@ import importlib
 # property -> list of (module, function name).  A function may serve several properties; its findings and
 # recorded obligations are filtered by property.
 RULES = {
-    "C01": [("sa.rules.b6", "r_C19a_C01"), ("sa.rules.c01", "r_C01ef"), ("sa.rules.c17", "r_C01h"), ("sa.rules.c01", "r_C01i"), ("sa.rules.c22", "r_rule_params_eval"), ("sa.rules.b6", "r_C23"), ("sa.rules.c04", "r_C04a"), ("sa.rules.c04", "r_C04num"), ("sa.rules.c03", "r_C03k"), ("sa.rules.c22", "r_C22jk"), ("sa.rules.cmeta", "r_initobj"), ("sa.rules.c21", "r_matchvisitors"), ("sa.rules.cmeta", "r_mmapi"), ("sa.rules.c02", "r_C02eval"), ("sa.rules.c03e", "r_C03eval"), ("sa.rules.c01e", "r_C01visitors"), ("sa.rules.cpn", "r_processnode")],
+    "C01": [("sa.rules.b6", "r_C19a_C01"), ("sa.rules.c01", "r_C01ef"), ("sa.rules.c17", "r_C01h"), ("sa.rules.c01", "r_C01i"), ("sa.rules.c22", "r_rule_params_eval"), ("sa.rules.b6", "r_C23"), ("sa.rules.c04", "r_C04a"), ("sa.rules.c04", "r_C04num"), ("sa.rules.c03", "r_C03k"), ("sa.rules.c22", "r_C22jk"), ("sa.rules.cmeta", "r_initobj"), ("sa.rules.c21", "r_matchvisitors"), ("sa.rules.cmeta", "r_mmapi"), ("sa.rules.c02", "r_C02eval"), ("sa.rules.c03e", "r_C03eval"), ("sa.rules.c01e", "r_C01visitors"), ("sa.rules.cpn", "r_processnode"), ("sa.rules.b3", "r_C16a")],
     "C02": [("sa.rules.b3", "r_C08_C34"), ("sa.rules.c01", "r_C01ef"), ("sa.rules.cmeta", "r_initobj"), ("sa.rules.c02", "r_C02eval"), ("sa.rules.c01e", "r_C01visitors"), ("sa.rules.cres", "r_resolver"), ("sa.rules.cpn", "r_processnode")],
-    "C03": [("sa.rules.b1", "r_C03a"), ("sa.rules.b6", "r_C03bc"), ("sa.rules.b3", "r_C03de_C11a_C17bc"), ("sa.rules.c03", "r_C03fgh"), ("sa.rules.c03", "r_C03j"), ("sa.rules.c03", "r_C03k"), ("sa.rules.c25", "r_C25efg"), ("sa.rules.cmeta", "r_initclass"), ("sa.rules.c03e", "r_C03eval"), ("sa.rules.cpn", "r_processnode")],
+    "C03": [("sa.rules.b1", "r_C03a"), ("sa.rules.b6", "r_C03bc"), ("sa.rules.b3", "r_C03de_C11a_C17bc"), ("sa.rules.c03", "r_C03fgh"), ("sa.rules.c03", "r_C03k"), ("sa.rules.c25", "r_C25efg"), ("sa.rules.cmeta", "r_initclass"), ("sa.rules.c03e", "r_C03eval"), ("sa.rules.cpn", "r_processnode")],
     "C04": [("sa.rules.b2", "r_C04"), ("sa.rules.c04", "r_C04a"), ("sa.rules.c04", "r_C04num"), ("sa.rules.c04", "r_C04defaults"), ("sa.rules.c01", "r_C01ef"), ("sa.rules.cmisc", "r_C06bcd"), ("sa.rules.cmeta", "r_mmapi"), ("sa.rules.cpn", "r_processnode")],
     "C05": [("sa.rules.b3", "r_C05_C10"), ("sa.rules.c05", "r_C05cde"), ("sa.rules.c14", "r_C14h"), ("sa.rules.c14", "r_C14inst"), ("sa.rules.b3", "r_C16a"), ("sa.rules.cpn", "r_processnode"), ("sa.rules.c05e", "r_C05children")],
     "C06": [("sa.rules.b7", "r_origin"), ("sa.rules.cmisc", "r_C06bcd"), ("sa.rules.c05", "r_C05cde"), ("sa.rules.c17", "r_C01h"), ("sa.rules.cpn", "r_processnode"), ("sa.rules.cdrv", "r_driver")],
@@ -74,8 +74,8 @@ ALSO = {
     # base type conversion: with use_regexp_group the converted text is decided by C01.g
     "C04": {"C01": ("C01.k",), "C06": ("C06.c",), "C03": ("C03.n",), "C13": ("C13.h",)},
     # C01.c (rule modifiers on an expression that ignores them) is the whitespace clause of C22 as well
-    "C22": {"C01": ("C01.c",), "C21": ("C21.a",), "C03": ("C03.n",)},
-    "C01": {"C02": ("C02.e",), "C04": ("C04.a", "C04.d", "C04.g"), "C23": ("C23.c",), "C03": ("C03.k", "C03.m", "C03.n"), "C05": ("C05.g",)},
+    "C22": {"C01": ("C01.c", "C01.d"), "C21": ("C21.a",), "C03": ("C03.n",)},
+    "C01": {"C02": ("C02.e",), "C04": ("C04.a", "C04.d", "C04.g"), "C23": ("C23.c",), "C03": ("C03.k", "C03.m", "C03.n"), "C05": ("C05.g",), "C16": ("C16.a",)},
     # C23.c (subscripted terminal in the invalid-regex handler) is the node-kind clause C01.f as well
     # C13 'the object processor registered for a rule': a registration replaces the previous table, never the built-in one (C04.e)
     "C13": {"C04": ("C04.e",), "C01": ("C01.k",), "C18": ("C18.k",)},
